@@ -39,25 +39,25 @@ ASSUMPTIONS = ["std::to_string(int) is the decimal representation with a leading
                "on a platform where long double is double the repair is a no-op and the old double range applies. "
                "The other families (single values, Export_Function, size-targeted headers, In_Units with rounding) keep the 2^-40 margin by construction",
                "round-trip bound: half a unit of the sixth significant digit of x/u + 2^-50 |x/u| (double division and multiplication); Log_Space abscissae of Export_Function: 2^-36 (exp/log)",
-               "pending repairs (tolerated while the PENDING_* constants are True, strict with LP_ASSUME_FIXED): P10 Import_Table reshapes a ragged file and counts trailing blank lines as rows "
-               "(/tmp/fixprop-C20-2); P10B rows of unequal length whose total number of entries fills the rows are still reshaped after that repair (4+2 entries -> 2 x 3; needs a line-wise reader); "
-               "ROUND0 In_Units(x,u,true,0) = inf (/tmp/fixprop-C17-2)",
+               "repairs applied in /repo and mirrored (the PENDING_* constants are False; a reverted tree alarms): c62bfe8 Import_Table terminates on a file whose entries do not fill its rows and "
+               "does not count trailing blank lines as rows; f9320d5 Round / In_Units(round) reject zero significant digits; residual of P10 (known finding C20-ragged-total): rows of unequal length whose total number of entries fills the rows are still reshaped (4+2 entries -> 2 x 3; needs a line-wise reader), "
+               "reported at every seed under its own clause; ",
                "In_Units undo: 3 eps; derived-unit identities and definitions on a build's own constants: 4 eps in every build"]
 TRUSTED = ["translators/units.py (regenerates lean/LpModel/C20/Generated.lean from src/Natural_Units.cpp before every lake build; cross-checked by the values read in the separately compiled builds)",
            "mpmath for sqrt / pi / non-integer pow on the comparison side"]
 
 # Pending repairs proposed to the integrator (True = the behaviour of /repo HEAD is tolerated and compared with the model of the code as
 # it is; LP_ASSUME_FIXED=P10,... switches the strict clause and the mirrored model on for a rehearsal / after the patch is applied)
-PENDING_P10 = True      # Import_Table reshapes a ragged file silently; trailing blank lines count as rows (/tmp/fixprop-C20-2)
-PENDING_P10B = True     # residual of P10: rows of unequal length whose TOTAL number of entries still fills the rows (4+2 entries read as 2 x 3);
-                        # the proposed repair tests the total only - a line-wise reader would be needed (reported, no patch)
+PENDING_P10 = False     # Import_Table reshapes a ragged file silently; trailing blank lines count as rows (/tmp/fixprop-C20-2)
+# residual of P10 (known finding C20-ragged-total): rows of unequal length whose TOTAL number of entries still fills the rows (4+2 entries
+# read as 2 x 3): c62bfe8 tests the total only; a line-wise reader would be needed. Reported under RAGGED_TOTAL_CLAUSE at every seed.
 
 
-PENDING_ROUND0 = True   # In_Units(x, u, true, 0) = inf: Round accepts zero significant digits (/tmp/fixprop-C17-2)
+PENDING_ROUND0 = False  # In_Units(x, u, true, 0) = inf: Round accepts zero significant digits (/tmp/fixprop-C17-2)
 
 
 def pending(item):
-    return {"P10": PENDING_P10, "P10B": PENDING_P10B, "ROUND0": PENDING_ROUND0}[item] and item not in os.environ.get("LP_ASSUME_FIXED", "").split(",")
+    return {"P10": PENDING_P10, "ROUND0": PENDING_ROUND0}[item] and item not in os.environ.get("LP_ASSUME_FIXED", "").split(",")
 
 
 K_VAL = 64          # relative tolerance (ulps) for constants and In_Units/Import values
@@ -155,6 +155,12 @@ def grid_expected(lo, hi, n, logarithmic):
 FUNC_CLAUSE = "Export_Function/Import_Table round trip fails on a degenerate grid"
 
 
+# the known finding C20-ragged-total matches exactly this text (op_prefix c20.imptable)
+RAGGED_TOTAL_CLAUSE = "Import_Table accepts a ragged file (rows of unequal length) instead of terminating with a diagnostic"
+# c62bfe8's clause: a file whose entries do NOT fill its rows must terminate - distinct text, never matched by the known finding
+RAGGED_FILL_CLAUSE = "Import_Table accepts a file whose entries do not fill its rows (ragged rows, a blank line between rows) instead of terminating with a diagnostic"
+
+
 def import_shape_oracle(op, a, impl, ctx):
     """C10/C20: a file whose rows (lines after the ignored ones, up to the last non-blank line) do not have the same number of entries is
     ragged: Import_Table must terminate with a diagnostic, not reshape it; blank lines at the end are not rows.
@@ -183,12 +189,8 @@ def import_shape_oracle(op, a, impl, ctx):
     ragged_lines = len(set(counts)) > 1 and not ragged_total
     trailing_blank = len(lines[ign:]) > len(data)
     if ragged_lines:
-        if pending("P10B"):
-            bump(ctx, "pending P10B: unequal rows whose total fills the rows (reshaped)")
-            return []
         if tag(impl) != "err":
-            return [fail("prop", "Import_Table accepts a ragged file (rows of unequal length) instead of terminating with a diagnostic",
-                         "rows of %s entries: %s" % (counts, impl[:120]))]
+            return [fail("prop", RAGGED_TOTAL_CLAUSE, "rows of %s entries whose total fills the rows: %s" % (counts, impl[:120]))]
         return []
     if not (ragged_total or trailing_blank):
         return []
@@ -196,8 +198,7 @@ def import_shape_oracle(op, a, impl, ctx):
         bump(ctx, "pending P10: ragged file / trailing blank lines (HEAD reshapes)")
         return []
     if ragged_total and tag(impl) != "err":
-        return [fail("prop", "Import_Table accepts a ragged file (rows of unequal length) instead of terminating with a diagnostic",
-                     "rows of %s entries: %s" % (counts, impl[:120]))]
+        return [fail("prop", RAGGED_FILL_CLAUSE, "rows of %s entries: %s" % (counts, impl[:120]))]
     if not ragged_total and trailing_blank:
         us_, _ = read_list(a[1:], fl)
         if us_ and len(us_) != counts[0]:
@@ -599,7 +600,9 @@ def generate(tier, seed, ctx):
         us = [] if rng.random() < 0.5 else [1.0] * (c if kind != 0 or rng.random() < 0.5 else len(rows[-1]))
         R.append("%s %s %s %d" % (imp_op, enhex(text), lst(us), hl))
     for (text, us) in [("1 2 3\n4 5 6\n7 8\n", [1.0, 1.0]), ("1 2 3\n4 5 6\n7 8\n", []), ("1 2\n3 4\n\n\n", []), ("1 2\n3 4\n\n\n", [1.0, 1.0]),
-                       ("1 2\n3 4\n", [1.0, 1.0]), ("1 2\n\n3 4\n", []), ("1\n2 3\n", []), ("1 2 3 4\n5 6\n", [1.0, 1.0, 1.0])]:
+                       ("1 2\n3 4\n", [1.0, 1.0]), ("1 2\n\n3 4\n", []), ("1\n2 3\n", []), ("1 2 3 4\n5 6\n", [1.0, 1.0, 1.0]),
+                       # residual (known finding C20-ragged-total): unequal rows whose total fills the rows
+                       ("1 2 3\n4\n", []), ("1\n2 3 4 5\n6\n", [1.0, 1.0]), ("1 2 3 4 5\n6\n", [])]:
         R.append("%s %s %s 0" % (imp_op, enhex(text), lst(us)))
     for t in ["", "\n", "a", "a\n", "a\nb", "a\n\nb\n", "\n\n\n", "1 2\n3 4", "1 2\n3 4\n", " \n \n"]:
         R.append("c20.lines %s" % enhex(t))
